@@ -24,7 +24,7 @@ CODES = [0, 7, 9] + list(range(0x100, 0x111)) + [0x200, 0x201, 0x202, 2**62 - 1]
 class C07(Prop):
     id = "C07"
     thorough_rounds = 12   # thorough tier: this many independently seeded rounds of the random generators (duplicates dropped)
-    modules = ["H3.Props.C07"]
+    modules = ["H3.Props.C07", "H3.Lemmas.GenAgreeReq", "H3.Lemmas.GenAgreeFrame"]
     engines = ["iso"]
     design_ref = "DESIGN.md section 7, C07"
     level_text = ("Lean theorems over the product machine H3.Iso (any number of request machines = the C03 receive machine over the "
@@ -52,7 +52,7 @@ class C07(Prop):
             "faulted by RESET with an arbitrary code at a random byte offset, STOP_SENDING, a validly encoded malformed head, an "
             "oversized section, or FIN before HEADERS; ops of different streams interleaved at random, executor order seeds; "
             "non-trivial = at least one healthy and one faulted stream in the scenario")
-    trusted = []
+    trusted = ["the decision tables of the request receive path (H3.Gen.ReqArms, FirstFrame, FrameErrCodes, FrameDispatch) are re-read from the sources on this run and the request machine of H3.Iso is proved to follow them (H3.Lemmas.GenAgreeReq/GenAgreeFrame, rebuilt on this run)"]
     assumptions = ["a RESET may discard data the application had not read yet (QUIC); only the error kind is compared on a faulted stream",
                    "FIN before HEADERS is stream-scoped on a server only (a client treats it as an invalid frame sequence, R-03)"]
 
